@@ -82,7 +82,9 @@ func verifFixedSource(n, e, graphs int) (*verifDatabase, []GraphTarget) {
 
 // VerifC19Interrupt: a dump is interrupted - mode 0: the process crashes before a file
 // system operation, mode 1: a file system operation fails, mode 2: a database cursor fetch
-// fails - at every point of the run, then resumed against the unchanged source.
+// fails - at every point of the run, then resumed against the unchanged source. Modes 3 and
+// 4 are modes 0 and 1 restricted to directory-level operations (create, rename, remove,
+// mkdir), which native replays can intercept as well.
 //   - after the interruption there is no manifest, unless the dump was already complete
 //     (every file of the uninterrupted dump present, manifest equal);
 //   - the resume either succeeds with a dump equal to the uninterrupted one (same files,
@@ -94,6 +96,15 @@ func VerifC19Interrupt(n, e, graphs, mode int) {
 	ctx := context.Background()
 	src, targets := verifFixedSource(n, e, graphs)
 
+	coarse := mode >= 3
+	if coarse {
+		// directory-level operations only: these points can be replayed natively
+		mode -= 3
+		if verifFS != nil {
+			verifFS.coarse = true
+		}
+	}
+	verifNativeFaults.ops, verifNativeFaults.crashAt, verifNativeFaults.failAt = 0, 0, 0
 	ref := filepath.Join(dir, "ref")
 	options := DefaultDumpOptions(ref)
 	options.Compression = CompressionNone
@@ -107,7 +118,7 @@ func VerifC19Interrupt(n, e, graphs, mode int) {
 	refManifest, _ := verifNormalisedManifest(ref)
 	refFiles := verifDumpFiles(ref)
 	refFetches := src.fetches
-	refOps := 0
+	refOps := verifNativeFaults.ops
 	if verifFS != nil {
 		refOps = verifFS.ops
 	}
@@ -117,17 +128,25 @@ func VerifC19Interrupt(n, e, graphs, mode int) {
 	src.fetches = 0
 	switch mode {
 	case 0:
-		if verifFS == nil || refOps == 0 {
+		if (verifFS == nil && !coarse) || refOps == 0 {
 			return
 		}
-		verifFS.ops = 0
-		verifFS.crashAt = 1 + verifrt.NondetChoice("crash before file system operation", refOps)
+		at := 1 + verifrt.NondetChoice("crash before file system operation", refOps)
+		if verifFS != nil {
+			verifFS.ops, verifFS.crashAt = 0, at
+		} else {
+			verifNativeFaults.ops, verifNativeFaults.crashAt = 0, at
+		}
 	case 1:
-		if verifFS == nil || refOps == 0 {
+		if (verifFS == nil && !coarse) || refOps == 0 {
 			return
 		}
-		verifFS.ops = 0
-		verifFS.failAt = 1 + verifrt.NondetChoice("failing file system operation", refOps)
+		at := 1 + verifrt.NondetChoice("failing file system operation", refOps)
+		if verifFS != nil {
+			verifFS.ops, verifFS.failAt = 0, at
+		} else {
+			verifNativeFaults.ops, verifNativeFaults.failAt = 0, at
+		}
 	default:
 		src.failFetch = 1 + verifrt.NondetChoice("failing cursor fetch", refFetches)
 	}
@@ -138,6 +157,7 @@ func VerifC19Interrupt(n, e, graphs, mode int) {
 	if verifFS != nil {
 		verifFS.crashAt, verifFS.failAt = 0, 0
 	}
+	verifNativeFaults.crashAt, verifNativeFaults.failAt = 0, 0
 	src.failFetch = 0
 	interrupted := crashed || firstErr != nil
 	verifrt.Observe("interrupted", interrupted, "crashed", crashed)
